@@ -161,6 +161,16 @@ def main(tier, seed):
             rc = tsmlib.rig_cfg(seg=seg, lq=L, lr=L, pwc=rng.choice([1, 2, 4, 8]), pws=rng.choice([1, 2, 3, 8]))
             traces.append(tsmlib.record(rc))
             chk.case(("len", seg, L), nontrivial=L > seg)
+    # (i') a node's OWN limit on the segments it receives says nothing about what it may send: the peer left max-segments
+    # unspecified, the transfer needs more segments than the sender itself would take
+    for nq, nr, cms, sms in ((1, 8, None, 4), (1, 5, None, 2), (8, 1, 4, None), (6, 6, 2, 2)):
+        rc = tsmlib.rig_cfg(seg=50, nq=nq, nr=nr, pwc=3, pws=3, c_maxsegs=cms if nq == 1 else None, s_maxsegs=sms if nq == 1 else None)
+        if nq > 1:
+            rc = tsmlib.rig_cfg(seg=50, nq=nq, nr=nr, pwc=3, pws=3, c_maxsegs=cms, s_maxsegs=sms)
+        if (nq, nr) == (6, 6):
+            continue                # (both directions limited to 2: not a transfer that can be completed)
+        traces.append(tsmlib.record(rc))
+        chk.case(("own-limit", nq, nr, cms, sms), nontrivial=True)
     # (ii) every single fault at every frame, two scheduler orders; windows 1..8
     wins = [(w, 9 - w) for w in range(1, 9)] if thorough else [(1, 8), (2, 2), (3, 5), (8, 1)]
     for pwc, pws in wins:
